@@ -8,6 +8,7 @@ import Driver.L6
 import Driver.L7
 import Driver.L8
 import Driver.L9
+import Driver.L10
 open Clap.Driver
 
 def dispatch (line : String) : String :=
@@ -42,6 +43,9 @@ def dispatch (line : String) : String :=
     | some r => r
     | none =>
     match handleL9 cmd args with
+    | some r => r
+    | none =>
+    match handleL10 cmd args with
     | some r => r
     | none => "bad-op"
 
